@@ -543,23 +543,52 @@ def branchOf (w : World PV PE POp) (s : Stmt PV POp) (o : Outcome PV PE) : List 
     | _ => []
   (k ++ ":" ++ oc) :: extra
 
-def runModel (fuel : Nat) : World PV PE POp → List (Stmt PV POp) → List (Outcome PV PE) × List String
-  | _, [] => ([], [])
-  | w, s :: ss =>
+/-- internal flags of the nodes that have a counterpart object in the harness: (id, _dirty, _error_state set, root._dirty_obj) -/
+def flagsOf (w : World PV PE POp) (ids : List Nat) : Json :=
+  Json.arr (ids.filterMap fun i => (w.nodes[i]?).map fun nd =>
+    let rd := match w.nodes[nd.root]? with | some rt => rt.dirtyObj | Option.none => false
+    Json.arr #[toJson i, Json.bool nd.dirty, Json.bool nd.error.isSome, Json.bool rd]).toArray
+
+/-- ids (relative to the first id the statement allocates) of the nodes the harness can look at -/
+def comparable (kind : String) (subjIsAccessor : Bool) : List Nat :=
+  match kind with
+  | "lit" | "rootp" | "bind" | "where" => [0]
+  | "op" => if subjIsAccessor then [1] else [0, 1]
+  | "meth" => [1, 2]
+  | "meth2" => [1, 2, 3, 4]
+  | _ => []
+
+def runModel (fuel : Nat) : World PV PE POp → List (Stmt PV POp × Json) → List Nat → List Nat → Bool →
+    List (Outcome PV PE) × List String × List Json
+  | _, [], _, _, _ => ([], [], [])
+  | w, (s, raw) :: ss, ids, accs, quiet0 =>
     let (o, w1) := step pySem fuel w s
     let b := branchOf w s o
+    let kind := (raw.getObjValAs? String "s").toOption.getD ""
+    let subj := (raw.getObjValAs? Nat "n").toOption.getD 0
+    let base := w.nodes.length
+    let created := match o with | .created => true | _ => false
+    let ids1 := if created then ids ++ (comparable kind (accs.contains subj)).map (base + ·) else ids
+    let accs1 := if created && kind == "attr" then accs ++ [base + 2] else accs
+    -- not compared: from an operator applied to an attribute accessor on (this rendering reads the accessor there,
+    -- the code does not), and at an update that raised in a program with holders
+    let quiet := quiet0 || (kind == "op" && accs.contains subj)
+    let raisedWithHolders := match o with | .set _ (some _) => !w1.holders.isEmpty | _ => false
+    let fl := if quiet || raisedWithHolders then Json.arr #[] else flagsOf w1 ids1
     match o with
-    | .createErr _ | .bad | .fuel => ([o], b)
+    | .createErr _ | .bad | .fuel => ([o], b, [fl])
     | .set _ (some _) =>
       -- an exception escaping an update also skips the invalidation watchers registered after the raising
       -- `_sync_refs`; that is not modelled: a program with reference holders ends there
-      if w1.holders.isEmpty then let (os, bs) := runModel fuel w1 ss; (o :: os, b ++ bs) else ([o], b)
-    | _ => let (os, bs) := runModel fuel w1 ss; (o :: os, b ++ bs)
+      if w1.holders.isEmpty then let (os, bs, fs) := runModel fuel w1 ss ids1 accs1 quiet; (o :: os, b ++ bs, fl :: fs)
+      else ([o], b, [fl])
+    | _ => let (os, bs, fs) := runModel fuel w1 ss ids1 accs1 quiet; (o :: os, b ++ bs, fl :: fs)
 
 def handle (req : Json) : Except String Json := do
   let case ← req.getObjVal? "case"
-  let prog ← (← getArr case "prog").toList.mapM parseStmt
-  let (modelOut, branches) := runModel 100000 (World.empty pySem) prog
+  let raws := (← getArr case "prog").toList
+  let prog ← raws.mapM parseStmt
+  let (modelOut, branches, flags) := runModel 100000 (World.empty pySem) (prog.zip raws) [] [] false
   let impl ← req.getObjVal? "impl"
   let implOut ← (← getArr impl "steps").toList.mapM parseOutcome
   let s0 : SpecState PV POp := SpecState.empty pySem
@@ -568,7 +597,7 @@ def handle (req : Json) : Except String Json := do
   let invalid := modelOut.any fun o => match o with | .bad | .fuel => true | _ => false
   let optJ : Option String → Json := fun | some s => Json.str s | Option.none => Json.null
   return Json.mkObj [
-    ("model", Json.mkObj [("steps", Json.arr (modelOut.map jOutcome).toArray)]),
+    ("model", Json.mkObj [("steps", Json.arr (modelOut.map jOutcome).toArray), ("flags", Json.arr flags.toArray)]),
     ("applicable", Json.bool (!invalid)),
     ("checked_steps", toJson nImpl),
     ("spec_impl", optJ sImpl), ("spec_model", optJ sModel),
